@@ -3,6 +3,7 @@ pub mod adsr;
 pub mod api;
 pub mod clamp;
 pub mod common;
+pub mod decode;
 pub mod glide;
 pub mod lfo;
 pub mod midi;
